@@ -65,12 +65,15 @@ def plan(tier, seed):
         i = loads.index(min(loads))
         shards[i].append(c)
         loads[i] += c[2] * c[0] * c[1]
-    return [{"name": "s%02d" % i, "shard": i, "cells": s, "timeout": 3000} for i, s in enumerate(shards)]
+    specs = [{"name": "s%02d" % i, "shard": i, "cells": s, "timeout": 3000} for i, s in enumerate(shards)]
+    specs += [{"name": "prog%d" % i, "kind": "prog", "shard": i, "datasets": 10 if tier == "quick" else 40, "timeout": 3000} for i in range(4)]
+    return specs
 
 
 def required(tier):
     return {"sum_to_one_cells": 300, "pmf_checked": 50000, "conditional_checked": 50000, "assemble_vs_call": 2000,
-            "exact_fraction_checked": 2000, "zero_freq_cells": 20, "high_ploidy_cells": 20}
+            "exact_fraction_checked": 2000, "zero_freq_cells": 20, "high_ploidy_cells": 20,
+            "prog_datasets": 12, "prog_gp_vectors_checked": 80, "prog_datasets_equal_ploidy_unequal_inbreeding": 6}
 
 
 def coverage_extra(tier, col):
@@ -114,6 +117,12 @@ def run_cell(ploidy, na, rng, col, K, spec_name, tier="quick"):
         col.count("high_ploidy_cells")
         Fs = [0.0, 0.1, float(rng.uniform(0.001, 0.99))] + ([0.9] if len(gs) <= 1000 else [])
         fvs = [fv for fv in fvs if fv[0] in ("none", "rand", "zeros", "rational")]
+        if na >= 2:
+            # a rare allele in a large pool: f ** ploidy is far below the double range (0.003 ** 128 = 1e-323) although the
+            # log prior is an ordinary number
+            f = np.full(na, 0.003)
+            f[-1] = 1.0 - 0.003 * (na - 1)
+            fvs.append(("rare", f))
     for fname, f in fvs:
         for F in Fs:
             cell = {"ploidy": ploidy, "n_alleles": na, "F": F, "freq": None if f is None else f.tolist()}
@@ -137,6 +146,8 @@ def run_cell(ploidy, na, rng, col, K, spec_name, tier="quick"):
                 if not ok and nbad < 3:
                     nbad += 1
                     mech = "zero-frequency-allele-has-mass" if (want == -math.inf) else "prior-differs-from-dirichlet-multinomial"
+                    if got == -math.inf and want > -math.inf and F == 0.0 and f is not None:
+                        mech = "multinomial-prior-underflows-for-large-pools"
                     col.violation(mech, "call prior of %s = %r want %r (ploidy %d alleles %d F %g freq %s)" % (g, got, want, ploidy, na, F, fname),
                                   {"kind": "genotype", "genotype": list(g), **cell})
             # exact rational cross-check on a subset of genotypes
@@ -167,11 +178,13 @@ def run_cell(ploidy, na, rng, col, K, spec_name, tier="quick"):
                 nb = 0
                 for rest in rests:
                     # unnormalised conditional weights: P(G'_b) * count_b(G'_b)
+                    lpb = [lookup[tuple(sorted(rest + (b,)))] for b in range(na)]
+                    top = max(lpb)   # weights relative to the largest: the genotype priors themselves may be far below 1e-308
                     w = []
                     for b in range(na):
                         gb = tuple(sorted(rest + (b,)))
-                        lp = lookup[gb]
-                        w.append(0.0 if lp == -math.inf else math.exp(lp) * gb.count(b))
+                        lp = lpb[b]
+                        w.append(0.0 if (lp == -math.inf or top == -math.inf) else math.exp(lp - top) * gb.count(b))
                     z = math.fsum(w)
                     if z <= 0:
                         col.count("conditional_undefined_skipped")
@@ -248,7 +261,106 @@ def kernels():
             "get_dosage": get_haplotype_dosage}
 
 
+
+def run_prog(tier, seed, spec, col):
+    """The prior the PROGRAM uses: call-exact on samples WITHOUT a single read prints GP = the genotype prior of that sample.
+    Samples of equal ploidy get different inbreeding coefficients from a per-sample file, records carry prior frequencies with
+    zeros and masked references; every printed GP vector must be the (Dirichlet-)multinomial of that sample's own ploidy,
+    inbreeding coefficient and the record's (normalised, masked) frequencies, in VCF genotype order."""
+    import os
+    import shutil
+
+    from vlib import cli, datasets, env, hapvcf, vcfparse
+
+    for dI in range(spec["datasets"]):
+        rng = gen.rng_for(seed, ID, 2000 + spec["shard"], dI)
+        root = env.workdir("c05-prog-%d-%d" % (spec["shard"], dI))
+        shutil.rmtree(root, ignore_errors=True)
+        n_s = int(rng.integers(2, 5))
+        ds = datasets.make_dataset(rng, root, n_samples=n_s, n_loci=int(rng.integers(2, 5)), ploidy=[2, 4] if rng.random() < 0.7 else [3, 6], depth=(0, 0),
+                                   contig_len=600, snv_range=(1, 4))
+        # equal ploidies on purpose in half of the datasets
+        if rng.random() < 0.5:
+            for s_ in ds.samples:
+                ds.ploidy[s_] = ds.ploidy[ds.samples[0]]
+        Fs = {s_: float(v) for s_, v in zip(ds.samples, rng.choice([0.0, 0.05, 0.2, 0.5, 0.8], size=n_s))}
+        if len(set(Fs.values())) == 1:
+            Fs[ds.samples[-1]] = 0.35
+        pf, ff = os.path.join(root, "ploidy.txt"), os.path.join(root, "inbreeding.txt")
+        with open(pf, "w") as fh:
+            for s_ in ds.samples:
+                fh.write("%s\t%d\n" % (s_, ds.ploidy[s_]))
+        with open(ff, "w") as fh:
+            for s_ in ds.samples:
+                fh.write("%s\t%r\n" % (s_, Fs[s_]))
+        recs = []
+        for L in ds.loci:
+            ref = ds.contigs[L["contig"]][L["start"]:L["stop"]]
+            alts = []
+            for _ in range(12):
+                hap = tuple(([v["ref"]] + v["alts"])[int(rng.integers(0, 1 + len(v["alts"])))] for v in L["snvs"])
+                sq = datasets.hap_sequence(ds.contigs, L, hap, L["start"], L["stop"])
+                if sq != ref and sq not in alts:
+                    alts.append(sq)
+            alts = alts[: int(rng.integers(1, 5))]
+            w = np.round(rng.dirichlet(np.ones(1 + len(alts))), 3)
+            if len(alts) >= 2 and rng.random() < 0.3:
+                w[int(rng.integers(1, len(w)))] = 0.0
+            if w.sum() <= 0:
+                w[0] = 1.0
+            info = {"AFP": ",".join(repr(float(x)) for x in w)}
+            masked = bool(alts and rng.random() < 0.25)
+            if masked:
+                info["REFMASKED"] = True
+            recs.append({"contig": L["contig"], "pos0": L["start"], "id": L["name"], "ref": ref, "alts": alts, "info": info, "w": w, "masked": masked})
+        hv = hapvcf.write(os.path.join(root, "haps.vcf"), hapvcf.render(ds.contigs, recs, info_defs=[
+            {"ID": "AFP", "Number": "R", "Type": "Float"}, {"ID": "REFMASKED", "Number": "0", "Type": "Flag"}]))
+        use_prior = bool(rng.random() < 0.6)
+        args = ["call-exact", "--haplotypes", hv, "--reference", ds.fasta, "--bam"] + ds.bams + ["--ploidy", pf, "--inbreeding", ff, "--report", "GP"]
+        if use_prior:
+            args += ["--prior-frequencies", "AFP"]
+        out, exc = cli.run_inproc(args)
+        case = {"kind": "prog", "seed": seed, "shard": spec["shard"], "dataset": dI, "inbreeding": Fs, "ploidy": {s_: int(ds.ploidy[s_]) for s_ in ds.samples}, "prior_frequencies": use_prior}
+        col.case("PROG|%d|%d" % (spec["shard"], dI), nontrivial=True)
+        if exc is not None:
+            col.violation("program-fails-on-valid-input", "call-exact on read-less samples raised %r" % (exc,), case)
+            shutil.rmtree(root, ignore_errors=True)
+            continue
+        col.count("prog_datasets")
+        if len({(ds.ploidy[a], Fs[a]) for a in ds.samples}) > len({ds.ploidy[a] for a in ds.samples}):
+            col.count("prog_datasets_equal_ploidy_unequal_inbreeding")
+        h, orecs = vcfparse.parse(out)
+        by_pos = {(r["contig"], r["pos0"] + 1): r for r in recs}
+        for r in orecs:
+            src = by_pos[(r.chrom, r.pos)]
+            n = 1 + len(src["alts"])
+            f = np.array(src["w"], dtype=float) if use_prior else np.full(n, 1.0 / n)
+            if src["masked"]:
+                f[0] = 0.0
+            if f.sum() <= 0:
+                col.count("prog_records_without_usable_allele")
+                continue
+            f = f / f.sum()
+            for s_ in h.samples:
+                gp = r.sample_list(s_, "GP")
+                pl = int(ds.ploidy[s_])
+                gs = M.genotypes_vcf_order(n, pl)
+                if gp is None or None in gp or len(gp) != len(gs):
+                    col.violation("program-prior-wrong", "call-exact %s:%d sample %s: GP has %s entries for %d genotypes" % (r.chrom, r.pos, s_, None if gp is None else len(gp), len(gs)), case)
+                    continue
+                want = [0.0 if (lp := M.log_prior(g, n, Fs[s_], f)) == -math.inf else math.exp(lp) for g in gs]
+                col.count("prog_gp_vectors_checked")
+                err = max(abs(a - b) for a, b in zip(gp, want))
+                col.maxv("max_prog_prior_error", err)
+                if err > 0.0011:
+                    k = int(np.argmax([abs(a - b) for a, b in zip(gp, want)]))
+                    col.violation("program-prior-wrong", "call-exact %s:%d sample %s (ploidy %d, inbreeding %g, no reads): GP[%d] (genotype %s) = %g, the prior of that sample is %.6g (frequencies %s)"
+                                  % (r.chrom, r.pos, s_, pl, Fs[s_], k, gs[k], gp[k], want[k], np.round(f, 4).tolist()), case)
+        shutil.rmtree(root, ignore_errors=True)
+
 def run_shard(tier, seed, spec, col):
+    if spec.get("kind") == "prog":
+        return run_prog(tier, seed, spec, col)
     K = kernels()
     for ploidy, na, n in spec["cells"]:
         rng = gen.rng_for(seed, ID, ploidy * 100 + na, 0)
